@@ -196,4 +196,6 @@ func runC05(r *mon.Run) {
 		}
 	})
 	_ = gen.CtrlValues
+	// first use of the generator tables in a fresh process, through every entry point that reads them
+	runColdStart(r, "c05", r.N(24, 400), "sbm", "dsm", "pubkey", "sign", "verify")
 }
